@@ -30,7 +30,7 @@ def pairUp : List Str → List (Str × Str)
 
 def mkUser (ss : List Str) (style : Nat) : Option (UserTy × Str) :=
   match ss with
-  | name :: tstr :: msg :: safe => some (⟨name, tstr, style, safe⟩, msg)
+  | name :: tstr :: msg :: safe => some (⟨name, tstr, style, safe, if style = 0 then 0 else if style = 1 then 1 else 2⟩, msg)
   | _ => none
 
 def procOf (unknown : List Str) : Proc :=
